@@ -89,7 +89,7 @@ Proof. split; reflexivity. Qed.
    event; a Network-Number-Is broadcast leaves the fragment (d_lost); the link layer (BVLL) is not in this model. *)
 From Bac Require Import PyRt Ssm SsmC04a SsmC04h.
 From Bac Require Npci Apci RouterCache SsmWorld.
-From Bac Require Import DeviceRx DeviceRxFacts DeviceRxReply DeviceRxEnd DeviceRxPeer.
+From Bac Require Import DeviceRx DeviceRxFacts DeviceRxReply DeviceRxEnd DeviceRxPeer DeviceRxHdr.
 From BacGen Require Import ApduFns.
 Open Scope Z_scope.
 
@@ -191,6 +191,61 @@ Print Assumptions C10_peer_key_injective.
 Definition c10_cfg := SsmWorld.mkNode 1 1476 3 64 3 3000 5000 2 3000 false [].
 Example C10_dev_inv_init : dev_inv (dev_init c10_cfg).
 Proof. apply dev_init_inv. split; reflexivity. Qed.
+
+(* (5) the fixed header octet by octet (wave 6).  request_octets ctl b0 b1 inv sc params = 1 :: ctl :: b0 :: b1 :: inv :: sc :: params:
+   NPCI control without address fields (any priority, expecting-reply or not: ctl < 8), first APDU octet of an unsegmented
+   confirmed request (b0 < 4: the reserved bit and segmented-response-accepted are free), ANY second octet b1 (reserved bit,
+   max-segments code, max-APDU code incl. the reserved ones), ANY invoke ID octet — 0 and 255 are IDs like the others —, any
+   service choice, any parameter octets.  Such a frame is a well-framed request for the model ... *)
+Theorem C10_intact_header_is_a_request : forall m bc ctl b0 b1 inv sc params, plain_ctl ctl -> plain_b0 b0 ->
+  request_of (mkFrame m bc (request_octets ctl b0 b1 inv sc params)) = Some (None, m, request_apdu b0 b1 inv sc params).
+Proof. exact request_octets_parse. Qed.
+Print Assumptions C10_intact_header_is_a_request.
+
+(* ... and draws exactly one frame back to the sender under that very invoke ID, on any device state in which the station has
+   no live transaction under the ID and no I-Am record, that listens (not DCC-disabled, or the service is DCC / Reinitialize),
+   whenever the service answers or raises *)
+Theorem C10_every_invoke_id_answered : forall st now m bc ctl b0 b1 inv sc params x,
+  plain_ctl ctl -> plain_b0 b0 -> listens (d_dcc st) sc ->
+  find_tr (Z.of_N inv) (peer_code None m) (d_str st) O = None ->
+  SsmWorld.assoc (peer_code None m) (SsmWorld.c_know (d_cfg st)) = None ->
+  x_exec x <> XSilent ->
+  exists fr, snd (device_rx st now (mkFrame m bc (request_octets ctl b0 b1 inv sc params)) x) = [DFrame (mac_code m) None fr] /\
+             a_invoke fr = Z.of_N inv.
+Proof. exact header_octets_one_reply. Qed.
+Print Assumptions C10_every_invoke_id_answered.
+
+(* at power-up nothing is left to assume *)
+Theorem C10_every_invoke_id_answered_fresh : forall cfg now m bc ctl b0 b1 inv sc params x,
+  SsmWorld.c_know cfg = [] -> plain_ctl ctl -> plain_b0 b0 -> x_exec x <> XSilent ->
+  exists fr, snd (device_rx (dev_init cfg) now (mkFrame m bc (request_octets ctl b0 b1 inv sc params)) x)
+             = [DFrame (mac_code m) None fr] /\ a_invoke fr = Z.of_N inv.
+Proof. exact header_octets_one_reply_fresh. Qed.
+Print Assumptions C10_every_invoke_id_answered_fresh.
+
+(* after any history, with a defined max-APDU code and an answer that is not a ComplexAck: the very reply asap_octets
+   prescribes for the parameter octets, whatever the other header fields are.  _partial as C10_valid_after_garbage_reply_partial *)
+Theorem C10_header_fields_do_not_change_reply_partial : forall cfg evs now m bc ctl b0 b1 inv sc params x r dec,
+  let st := fst (device_run (dev_init cfg) evs) in
+  let a := request_apdu b0 b1 inv sc params in
+  plain_ctl ctl -> plain_b0 b0 -> listens (d_dcc st) sc ->
+  decode_max_apdu_length_accepted (Z.of_N (N.land b1 15)) = Ok (Some dec) ->
+  find_tr (Z.of_N inv) (peer_code None m) (d_str st) O = None ->
+  SsmWorld.assoc (peer_code None m) (SsmWorld.c_know (d_cfg st)) = None ->
+  asap_octets (Z.to_N (Z.of_N sc)) (map Z.to_N (map Z.of_N params)) (x_helper x) (x_exec x) = [r] ->
+  (ptype r = 2 \/ ptype r = 5 \/ ptype r = 6 \/ ptype r = 7)%N ->
+  snd (device_rx st now (mkFrame m bc (request_octets ctl b0 b1 inv sc params)) x) = [DFrame (mac_code m) None (reply_apdu a x r)].
+Proof. exact header_octets_reply. Qed.
+Print Assumptions C10_header_fields_do_not_change_reply_partial.
+
+(* non-vacuity: ReadProperty under invoke ID 0 and under 255 with a reserved max-APDU code, on the device of the check *)
+Example C10_invoke_id_zero :
+  canon_douts (snd (device_rx (dev_init c10_cfg) 0 (mkFrame [9%N] false (request_octets 4 0 5 0 12 [12;0;128;0;1;25;85]%N)) (mkSvc true (XResp 3 0 0) 12 None)))
+    = [1; 1; 265; -1; -1; 3; 0; 0; 0; 0; 0; -1; 12] /\
+  canon_douts (snd (device_rx (dev_init c10_cfg) 0 (mkFrame [9%N] false (request_octets 0 3 0xFB 255 12 [12;0;128;0;1;25;85]%N)) (mkSvc true XSilent 0 None)))
+    = [1; 1; 265; -1; -1; 7; 255; 0; 0; 0; 0; -1; 0].
+Proof. vm_compute. split; reflexivity. Qed.
+
 Example C10_request_of_readproperty :
   exists a, request_of (mkFrame [9%N] false [1;4;0;5;33;12;12;0;128;0;1;25;85]%N) = Some (None, [9%N], a) /\
             a_seg a = false /\ a_invoke a = 33 /\ dcc_passes 0 a = true.
